@@ -1,10 +1,12 @@
 #!/bin/sh
-# r9.sh C14 [letter]: confirm the sub-agent's change in a scratch worktree, import it, record the first-sight verdict of the property's quick check
+# r9.sh C14 [letter] [round-file]: confirm the sub-agent's change in a scratch worktree, import it, record the first-sight
+# verdict of the property's quick check (rounds 9 and 10)
 l=${2:-j}
+rf=${3:-round9_first_sight.json}
 cd /verif
 python3 tools/seed_verify.py $1/$l > .work/sv_$1$l.log 2>&1
 if grep -q '"confirmed": true' .work/sv_$1$l.log; then
-  python3 tools/firstsight.py round9_first_sight.json first_sight $1$l > .work/fs_$1$l.log 2>&1
+  python3 tools/firstsight.py $rf first_sight $1$l > .work/fs_$1$l.log 2>&1
   cat .work/fs_$1$l.log
 else
   echo "$1$l NOT CONFIRMED"; tail -30 .work/sv_$1$l.log
